@@ -97,6 +97,8 @@ func (w *wbuf) bundleWith(b *lib.Bundle, classVals map[felt.Felt]string) {
 		case *core.DeprecatedCairoClass:
 			w.tok("1")
 			w.tok("0")
+			w.tok("0")
+			continue
 		default:
 			w.tok("0")
 			if v, ok := classVals[k]; ok {
@@ -104,18 +106,29 @@ func (w *wbuf) bundleWith(b *lib.Bundle, classVals map[felt.Felt]string) {
 					v = "0"
 				}
 				w.tok(v)
-				continue
-			}
-			h, err := c.Hash()
-			if err != nil {
+			} else if h, err := c.Hash(); err != nil {
 				w.tok("0")
 			} else {
 				var bi big.Int
 				h.BigInt(&bi)
 				w.tok(bi.Text(16))
 			}
+			// ClassDef.compiledBad: does Compiled.Hash(V2) return for this definition?
+			w.boolean(compiledBad(c))
 		}
 	}
+}
+
+// compiledBad: the V2 hash of the definition's compiled class cannot be computed (nil Compiled, segment lengths beyond
+// the bytecode). Judged on a deep copy: Go slices up to the capacity, and StoreOn offers a deep copy.
+func compiledBad(def core.ClassDefinition) bool {
+	sc, ok := def.(*core.SierraClass)
+	if !ok {
+		return false
+	}
+	cc := lib.DeepCopy(sc).(*core.SierraClass)
+	_, panicked, _ := lib.Try(func() error { _ = cc.Compiled.Hash(core.HashVersionV2); return nil })
+	return panicked
 }
 
 // modelVerdict returns the model's verdict class for bundle b offered to a node whose head is
